@@ -16,7 +16,7 @@ use crate::{
     ensure,
 };
 
-const RULE: &str = "a case = 1-3 emitter threads issuing 1-3 register/describe(+update) operations each through the weak wrapper (the wrapped double yields inside every call, so an emission can be in flight) and one owner thread that, after 0-2 own steps, calls into_inner() or drops the recovery handle; all under a generated schedule over the wrapper's upgrade point, the into_inner retry loop and the double's enter/exit points. Non-trivial = into_inner()/the handle drop is issued while an emission is inside the double or between a successful upgrade and its call. Distinct = distinct (case, schedule bytes) resp. distinct interleavings in the exhaustive sub-lane. Pass-through lane: 1-8 generated recorder calls (every kind; describe with/without unit and with empty text; names, labels, metadata, handle updates) go through the wrapper and into a second double directly and both must log the same, then into_inner()/drop and 0-4 more calls that must reach nothing. Process lane: real install(), including over an existing global recorder.";
+const RULE: &str = "a case = 1-3 emitter threads issuing 1-3 register/describe(+update) operations each through the weak wrapper (the wrapped double yields inside every call, so an emission can be in flight) and one owner thread that, after 0-2 own steps, calls into_inner() or drops the recovery handle; all under a generated schedule over the wrapper's upgrade point, the into_inner retry loop and the double's enter/exit points. Non-trivial = into_inner()/the handle drop is issued while an emission is inside the double or between a successful upgrade and its call. Distinct = distinct (case, schedule bytes) resp. distinct interleavings in the exhaustive sub-lane. Pass-through lane: 1-8 generated recorder calls (every kind; describe with/without unit and with empty text; names, labels, metadata, handle updates) go through the wrapper and into a second double directly and both must log the same, then into_inner()/drop and 0-4 more calls that must reach nothing. Many-in-flight lane: N = 2..512 threads (sizes around 32, 64, 128, 256) each hold one emission inside the wrapped recorder at the same time while the handle is alive; all N must have reached it. Process lane: real install(), including over an existing global recorder.";
 
 static META: Metadata<'static> = Metadata::new("c20", Level::INFO, Some("c20::mod"));
 
@@ -632,6 +632,124 @@ fn stress(pr: &PropRun) -> LaneReport {
     rep
 }
 
+/// Recorder double whose every call waits inside until released: lets any number of emissions be in flight at once.
+struct Gate {
+    entered: std::sync::Arc<std::sync::atomic::AtomicUsize>,
+    release: std::sync::Arc<std::sync::atomic::AtomicBool>,
+    drops: std::sync::Arc<std::sync::atomic::AtomicUsize>,
+}
+impl Gate {
+    fn wait(&self) {
+        self.entered.fetch_add(1, Ordering::SeqCst);
+        while !self.release.load(Ordering::Acquire) {
+            std::thread::sleep(std::time::Duration::from_micros(200));
+        }
+    }
+}
+impl Drop for Gate {
+    fn drop(&mut self) {
+        self.drops.fetch_add(1, Ordering::SeqCst);
+    }
+}
+impl Recorder for Gate {
+    fn describe_counter(&self, _: metrics::KeyName, _: Option<metrics::Unit>, _: metrics::SharedString) {
+        self.wait()
+    }
+    fn describe_gauge(&self, _: metrics::KeyName, _: Option<metrics::Unit>, _: metrics::SharedString) {
+        self.wait()
+    }
+    fn describe_histogram(&self, _: metrics::KeyName, _: Option<metrics::Unit>, _: metrics::SharedString) {
+        self.wait()
+    }
+    fn register_counter(&self, _: &Key, _: &Metadata<'_>) -> metrics::Counter {
+        self.wait();
+        metrics::Counter::noop()
+    }
+    fn register_gauge(&self, _: &Key, _: &Metadata<'_>) -> metrics::Gauge {
+        self.wait();
+        metrics::Gauge::noop()
+    }
+    fn register_histogram(&self, _: &Key, _: &Metadata<'_>) -> metrics::Histogram {
+        self.wait();
+        metrics::Histogram::noop()
+    }
+}
+
+/// N emissions (N up to a few hundred, every Recorder method) are inside the wrapped recorder at the same time while the
+/// recovery handle is alive: every one of them must have reached it, whatever N is.
+fn many_in_flight(pr: &PropRun) -> LaneReport {
+    use std::sync::{atomic::{AtomicBool, AtomicUsize}, Arc};
+    let start = std::time::Instant::now();
+    let mut rep = LaneReport::named("many-in-flight");
+    let sizes: &[usize] = if pr.cfg.cases(1, 2) == 1 { &[2, 17, 31, 32, 33, 34, 63, 64, 65, 100, 129, 256] } else { &[2, 3, 5, 9, 17, 31, 32, 33, 34, 48, 63, 64, 65, 100, 127, 128, 129, 200, 255, 256, 257, 400, 512] };
+    let mut problem: Option<(String, String)> = None;
+    let mut inconclusive = false;
+    for (round, &n) in sizes.iter().enumerate() {
+        let (entered, release, drops) = (Arc::new(AtomicUsize::new(0)), Arc::new(AtomicBool::new(false)), Arc::new(AtomicUsize::new(0)));
+        let (wrapped, handle) = RecoverableRecorder::new(Gate { entered: entered.clone(), release: release.clone(), drops: drops.clone() }).__verif_build();
+        let returned = AtomicUsize::new(0);
+        let mut bad: Option<(String, String)> = None;
+        std::thread::scope(|s| {
+            for t in 0..n {
+                let (wrapped, returned) = (&wrapped, &returned);
+                s.spawn(move || {
+                    let key = Key::from_name(format!("k{}", t));
+                    match t % 6 {
+                        0 => drop(wrapped.register_counter(&key, &META)),
+                        1 => drop(wrapped.register_gauge(&key, &META)),
+                        2 => drop(wrapped.register_histogram(&key, &META)),
+                        3 => wrapped.describe_counter(format!("k{}", t).into(), None, "d".into()),
+                        4 => wrapped.describe_gauge(format!("k{}", t).into(), None, "d".into()),
+                        _ => wrapped.describe_histogram(format!("k{}", t).into(), None, "d".into()),
+                    }
+                    returned.fetch_add(1, Ordering::SeqCst);
+                });
+            }
+            // every emission is either waiting inside the recorder or has come back without reaching it
+            let deadline = std::time::Instant::now() + std::time::Duration::from_secs(60);
+            while entered.load(Ordering::SeqCst) + returned.load(Ordering::SeqCst) < n && std::time::Instant::now() < deadline {
+                std::thread::sleep(std::time::Duration::from_micros(500));
+            }
+            let (e, r) = (entered.load(Ordering::SeqCst), returned.load(Ordering::SeqCst));
+            if e + r < n {
+                inconclusive = true;
+            } else if e != n {
+                bad = Some(("emission-lost-while-handle-alive".into(), format!("{} emissions issued concurrently through the wrapper while the recovery handle is alive: only {} reached the wrapped recorder, {} came back without reaching it", n, e, n - e)));
+            }
+            release.store(true, Ordering::Release);
+        });
+        let rec = handle.into_inner();
+        if bad.is_none() && !inconclusive && drops.load(Ordering::SeqCst) != 0 {
+            bad = Some(("recorder-dropped-before-recovery".into(), format!("dropped {} times before into_inner returned it", drops.load(Ordering::SeqCst))));
+        }
+        drop(rec);
+        drop(wrapped);
+        if bad.is_none() && !inconclusive && drops.load(Ordering::SeqCst) != 1 {
+            bad = Some(("recorder-not-dropped-exactly-once".into(), format!("dropped {} times", drops.load(Ordering::SeqCst))));
+        }
+        let mut ctx = Ctx::default();
+        ctx.fingerprint = Some(round as u64);
+        ctx.nontrivial("many-emissions-in-flight");
+        if round == 0 {
+            ctx.desc = Some(format!("N threads each make one emission (all six Recorder methods) through the wrapper into a recorder that holds them inside until all N are accounted for; N over {:?}", sizes));
+        }
+        rep.account(ctx);
+        if inconclusive {
+            println!("harness: many-in-flight with {} threads did not settle within 60 s: inconclusive, not asserted", n);
+            break;
+        }
+        if bad.is_some() {
+            problem = bad;
+            break;
+        }
+    }
+    if let Some((sig, msg)) = problem {
+        rep.violations.push(Violation { lane: "many-in-flight".into(), sig, msg, bytes: vec![], sched: vec![], decoded: "free-running threads held inside the recorder (deterministic outcome; not a byte replay)".into() });
+    }
+    rep.wall_s = start.elapsed().as_secs_f64();
+    rep
+}
+
 pub fn run(cfg: &RunCfg, replay: Option<&str>) -> i32 {
     let mut pr = PropRun::new("C20", cfg, RULE);
     pr.register("schedules", &case_sched);
@@ -658,6 +776,8 @@ pub fn run(cfg: &RunCfg, replay: Option<&str>) -> i32 {
     let r = run_lane(&c, "C20", &Lane { name: "pass-through", cases: c.cases(300_000, 6_000_000), max_len: 200, sched_len: 0, workers: 0, f: &case_passthrough });
     pr.push(r);
     let r = stress(&pr);
+    pr.push(r);
+    let r = many_in_flight(&pr);
     pr.push(r);
     let r = crate::engine::child::run_children(&pr, "C20", "install-processes", pr.cfg.cases(32, 1000), |seed| format!("install() {} an existing global recorder", if seed % 2 == 1 { "over" } else { "without" }));
     pr.push(r);
